@@ -2,7 +2,7 @@ import CsVerif.Model.C09
 import CsVerif.Model.C15
 /-! Line-protocol driver for the C09 model.
 
-  hist|histret <B|F> <nonceOff> <raw> <ops>     ops = comma separated: s<whence>:<off>  r<n>|rn  t
+  hist|histret|histeof|histwild <B|F|U> <nonceOff> <raw> <ops>     ops = comma separated: s<whence>:<off>  r<n>|rn  t
       answer: one item per op: `b<hex>` (read) `p<int>` (tell) `s` / `s<raw>` (seek; value only for histret)
       `e<Exc>` (the op raised; object unchanged)
   nonce <B|F> <nonceOff> <raw> <rawpos>          read_nonce() at raw position → `<hex> <rawpos after>`
@@ -17,7 +17,7 @@ namespace C09
 open Proto
 
 def kindTok (s : String) : Option FileKind :=
-  if s == "B" then some .bytesIO else if s == "F" then some .osFile else none
+  if s == "B" then some .bytesIO else if s == "F" || s == "U" then some .osFile else none
 
 def opTok (s : String) : Option Op :=
   match s.toList with
@@ -59,6 +59,8 @@ def toNats (xs : List Int) : Option (List Nat) :=
 def step : List String → String
   | ["hist", k, off, raw, ops] => histLine false k off raw ops
   | ["histret", k, off, raw, ops] => histLine true k off raw ops
+  | ["histeof", k, off, raw, ops] => histLine false k off raw ops
+  | ["histwild", k, off, raw, ops] => histLine true k off raw ops
   | ["nonce", k, off, raw, pos] =>
     match kindTok k, natTok off, bytesTok raw, natTok pos with
     | some k, some off, some raw, some pos =>
@@ -93,17 +95,17 @@ def step : List String → String
         | .ok (none, _) => "ok none"
         | .ok (some r, _) => s!"ok {r}"
     | _, _, _ => "bad-op"
-  | ["detect", k, mr, raw, hits, passing] =>
+  | ["detect", k, mr, raw, hits, passing, _tag] =>
     match kindTok k, natTok mr, bytesTok raw, natsTok hits, natsTok passing with
     | some k, some mr, some raw, some hits, some passing =>
       showDetect (fromFile { data := raw, pos := 0, kind := k } mr hits (fun c => passing.contains c))
     | _, _, _, _, _ => "bad-op"
-  | ["detectm", k, mr, raw, hits] =>
+  | ["detectm", k, mr, raw, hits, _tag] =>
     match kindTok k, natTok mr, bytesTok raw, natsTok hits with
     | some k, some mr, some raw, some hits =>
       showDetect (fromFileFull { data := raw, pos := 0, kind := k } mr hits)
     | _, _, _, _ => "bad-op"
-  | ["detectfull", k, mr, raw, bs] =>
+  | ["detectfull", k, mr, raw, bs, _tag] =>
     match kindTok k, natTok mr, bytesTok raw, natTok bs with
     | some k, some mr, some raw, some bs =>
       let f : PyFile := { data := raw, pos := 0, kind := k }
@@ -112,7 +114,7 @@ def step : List String → String
       | .error e => "exc " ++ e.name
       | .ok (hits, _) =>
         match toNats hits with
-        | none => "exc ValueError"
+        | none => "negative-needle-hit"
         | some hits => showDetect (fromFileFull f mr hits)
     | _, _, _, _ => "bad-op"
   | _ => "bad-op"
